@@ -75,6 +75,9 @@ func (s *SencBox) AddSample(sample SencSample) error {
 		if len(sample.IV) != 0 {
 			s.IVs = append(s.IVs, sample.IV)
 		}
+	} else if s.SampleCount != 0 && len(s.IVs) != 0 {
+		// Encode writes IVs[i] for every sample once there are per-sample IVs
+		return fmt.Errorf("mix of IV lengths")
 	}
 
 	if len(sample.SubSamples) > 0 || s.Flags&UseSubSampleEncryption != 0 {
